@@ -152,6 +152,31 @@ impl<'a> Oracle<'a> {
         self.run.disk.overlapping(lo, hi)
     }
 
+    /// Concatenated back-end: every content the image file(s) the path
+    /// denoted in `[lo, hi]` had at some moment in `[lo, hi]` (including
+    /// content written through an open handle after the file was unlinked),
+    /// and whether the path denoted no file at some moment.
+    fn cc_images(&self, lo: u32, hi: u32) -> (Vec<ContentId>, bool) {
+        let mut inodes: Vec<u64> = vec![];
+        let mut any_absent = false;
+        for s in self.snaps(lo, hi) {
+            if s.image_ino == 0 {
+                any_absent = true;
+            } else if !inodes.contains(&s.image_ino) {
+                inodes.push(s.image_ino);
+            }
+        }
+        let mut images = vec![];
+        for ino in inodes {
+            for c in self.run.disk.inode_contents(ino, lo, hi) {
+                if !images.contains(&c) {
+                    images.push(c);
+                }
+            }
+        }
+        (images, any_absent)
+    }
+
     /// Everything a reader of name `n` may see if its reads fall anywhere
     /// in `[lo, hi]`: the states of the name itself; for the symlink alias
     /// the states of every file the link pointed at in that window; and,
@@ -186,21 +211,12 @@ impl<'a> Oracle<'a> {
             // different states of the same file. Candidates: the location
             // given by any index the file had in the window, applied to the
             // bytes the file had at any moment in the window.
-            let mut inodes: Vec<u64> = vec![];
-            let mut any_absent = false;
-            for s in snaps {
-                if s.image_ino == 0 {
-                    any_absent = true;
-                } else if !inodes.contains(&s.image_ino) {
-                    inodes.push(s.image_ino);
-                }
-            }
+            let (images, any_absent) = self.cc_images(lo, hi);
             if any_absent {
                 out.push(Exp::Missing);
             }
             let uname = self.case().universe[n].clone();
-            for ino in inodes {
-                let images = self.run.disk.inode_contents(ino, lo, hi);
+            {
                 for &ci in &images {
                     let idx_img = self.run.disk.content(ci);
                     match crate::zonegen::android_locate(idx_img, &uname) {
@@ -515,6 +531,48 @@ impl<'a> Oracle<'a> {
             }
             return out;
         }
+        if backend == Backend::Concatenated {
+            // The list is replaced wholesale by a successful refresh and
+            // kept by a failed one. jiff reads the header and the index
+            // block separately, so a refresh during an in-place change may
+            // combine two states of the file.
+            let mut wit = self.witnesses(l);
+            wit.retain(|p| matches!(p.kind, OpKind::Open | OpKind::Available));
+            let mut may_fail = false;
+            let mut matched = false;
+            for p in wit.iter() {
+                let (lo, hi) = self.window(p, l);
+                let (images, any_absent) = self.cc_images(lo, hi);
+                may_fail |= any_absent;
+                for &h in &images {
+                    for &i in &images {
+                        match crate::zonegen::android_names(
+                            self.run.disk.content(h),
+                            self.run.disk.content(i),
+                        ) {
+                            None => may_fail = true,
+                            Some(list) => matched |= &list == names,
+                        }
+                    }
+                }
+            }
+            if matched {
+                return out;
+            }
+            if may_fail {
+                self.stats.availables_relaxed += 1;
+                return out;
+            }
+            out.push(Violation {
+                clause: "completeness",
+                op: Some(l.id),
+                detail: format!(
+                    "available() at clock {} returned {names:?}, which is not the index of the image at any moment during an operation that could still be cached",
+                    l.clk_inv
+                ),
+            });
+            return out;
+        }
         let universe = &self.case().universe;
         // Nothing outside the universe can be listed, and nothing twice.
         let mut wit = self.witnesses(l);
@@ -601,11 +659,19 @@ impl<'a> Oracle<'a> {
         let snaps = self.snaps(lo, hi);
         let justified = match backend {
             Backend::Bundled => false,
-            Backend::Concatenated => snaps.iter().any(|s| {
-                !s.container_ok
-                    || s.views.iter().all(|v| *v == View::Absent)
-                    || s.views.iter().any(|v| *v == View::Unreadable)
-            }),
+            Backend::Concatenated => {
+                let (images, any_absent) = self.cc_images(lo, hi);
+                any_absent
+                    || images.iter().any(|&h| {
+                        images.iter().any(|&i| {
+                            crate::zonegen::android_names(
+                                self.run.disk.content(h),
+                                self.run.disk.content(i),
+                            )
+                            .is_none()
+                        })
+                    })
+            }
             Backend::ZoneInfo => (0..self.case().universe.len())
                 .all(|n| snaps.iter().any(|s| !self.listable(&s.views[n]))),
         };
